@@ -58,6 +58,14 @@ func GoKeyTypes(m GoMode) []string {
 	return []string{"string", "int32", "int64"}
 }
 
+// GoGen narrows generator options to what a mode can hold: leaf and key types, composite keys only where lists are typed slices,
+// no union-typed leaves where a leaf is a struct field of one Go type.
+func GoGen(o *GenOpts, m GoMode) {
+	o.Types, o.KeyTypes = GoTypes(m), GoKeyTypes(m)
+	o.CompoundKeys = m.Shape == "struct"
+	o.NoUnionWrap = m.Shape == "struct"
+}
+
 func FieldName(in string) string {
 	out := []rune{}
 	up := true
